@@ -353,6 +353,9 @@ func (g *Gen) Ref() string {
 
 // Base returns a string meant to parse as a base URL.
 func (g *Gen) Base() string {
+	if g.r.Chance(1, 40) {
+		return "" // ParseRef with an empty base means "parse without base"
+	}
 	if g.r.Chance(1, 2) {
 		return g.pick(corpusBases)
 	}
